@@ -152,6 +152,12 @@ def executeTimed (c : Cpu) (elapsed : Option UInt32) : Cpu × Option UInt32 :=
   ({ (step c).1 with slice := { c.slice with cur := (if sliceFires c then 0 else c.slice.cur) + (step c).2 } },
    if sliceFires c then elapsed.map (fun d => if d ≤ c.slice.duration then c.slice.duration - d else 0) else none)
 
+/-- `set_freq(f)` for a frequency given in eighths of a MHz (`f = n8 / 8`, exactly representable in
+    f32 together with `f * 10^6`) after `set_slice_duration(d)` with d dividing 1000: the budget the
+    f32 computation `(f * 1_000_000) / (1000 / d)` yields is exact on this grid: n8 * 125 * d. -/
+def Cpu.setFreqEighths (c : Cpu) (n8 : UInt32) : Cpu :=
+  { c with slice := { c.slice with max := n8 * 125 * c.slice.duration } }
+
 def Cpu.setSliceDuration (c : Cpu) (d : UInt32) : Cpu := { c with slice := { c.slice with duration := d } }
 
 end Z80
